@@ -110,7 +110,9 @@ impl std::str::FromStr for ModifiedLines {
     fn from_str(s: &str) -> Result<ModifiedLines, ()> {
         let mut chunks = vec![];
 
-        let mut lines = s.lines();
+        // Split on '\n' only: `Display` terminates every line with '\n', and a
+        // reported line may itself end in '\r', which `str::lines` would strip.
+        let mut lines = s.split_terminator('\n');
         while let Some(header) = lines.next() {
             let mut header = header.split_whitespace();
             let (orig, rem, new_lines) = match (header.next(), header.next(), header.next()) {
